@@ -269,7 +269,9 @@ class Exec:
         if isinstance(op, ast.Sub): return a - b
         if isinstance(op, ast.Mult): return a * b
         if isinstance(op, ast.Div):
-            s.defined.append(b); return a / b
+            s.defined.append(b)
+            if b.op != 'c': s.pc.append(B('cmp', '!=', b, lift(0)))      # den == 0 is an abnormal exit (DESIGN 2.1(6))
+            return a / b
         if isinstance(op, ast.Pow): return power(a, b)
         raise NotImplementedError(op)
     def compare(s, op, a, b):
